@@ -35,6 +35,14 @@ pub trait ExWrite {
             r is Err ==> exists|k: int| 0 <= k <= buf@.len() && #[trigger] vx_written(final(self)) == vx_written(old(self)) + buf@.subrange(0, k);
 }
 #[verifier::external_trait_specification]
+pub trait ExSeek {
+    type ExternalTraitSpecificationFor: std::io::Seek;
+    /// ASSUMED: never fails; reports the bytes consumed so far (BufReader accounts for its buffer)
+    fn stream_position(&mut self) -> (r: std::io::Result<u64>)
+        ensures r is Ok, (match r { Ok(p) => p == vx_consumed(old(self)), Err(_) => true }),
+            vx_unread(final(self)) == vx_unread(old(self)), vx_consumed(final(self)) == vx_consumed(old(self));
+}
+#[verifier::external_trait_specification]
 pub trait ExRead {
     type ExternalTraitSpecificationFor: std::io::Read;
     /// ASSUMED: the only read failure is end of file (no I/O errors while loading the log)
@@ -47,3 +55,22 @@ pub trait ExRead {
             (match r { Err(e) => vx_is_eof(&e), Ok(_) => true });
 }
 }
+verus! {
+// `?` from io::Result into anyhow::Result (message dropped, R4/R7)
+impl vstd::std_specs::convert::FromSpecImpl<std::io::Error> for crate::anyhow::Error {
+    open spec fn obeys_from_spec() -> bool { false }
+    open spec fn from_spec(v: std::io::Error) -> Self { arbitrary() }
+}
+impl From<std::io::Error> for crate::anyhow::Error {
+    fn from(e: std::io::Error) -> (r: crate::anyhow::Error) { crate::anyhow::vx_error() }
+}
+}
+
+// `==` / `!=` on byte slices is element-wise equality (vstd routes it through PartialEqSpec, which it leaves
+// unspecified for [u8]): trusted.
+pub mod vx_slice_eq { use vstd::prelude::*; use vstd::std_specs::cmp::PartialEqSpec;
+verus!{
+pub broadcast axiom fn ax_obeys() ensures #[trigger] <[u8] as PartialEqSpec<[u8]>>::obeys_eq_spec();
+pub broadcast axiom fn ax_eq(a: &[u8], b: &[u8]) ensures #[trigger] <[u8] as PartialEqSpec<[u8]>>::eq_spec(a, b) == (a@ == b@);
+pub broadcast group g { ax_obeys, ax_eq }
+}}
